@@ -9,14 +9,18 @@
 //! * `probe` is a set of named reach counters.
 
 pub mod sync {
-    pub use shuttle::sync::{
-        Condvar, Mutex, MutexGuard, RwLock, RwLockReadGuard, RwLockWriteGuard,
-    };
-    pub use std::sync::Arc;
+    //! everything `std::sync` offers, as modelled by shuttle (Arc/Weak are std's)
+    pub use shuttle::sync::*;
 }
 
 pub mod thread {
-    pub use shuttle::thread::{spawn, JoinHandle};
+    //! `std::thread` as modelled by shuttle (spawn, JoinHandle, Builder, sleep,
+    //! yield_now, current, park, scope, ...)
+    // (not a glob: shuttle::thread also exports `Result`, which would shadow the prelude's)
+    pub use shuttle::thread::{
+        current, park, park_timeout, scope, sleep, spawn, yield_now, Builder, JoinHandle, Scope,
+        ScopedJoinHandle, Thread, ThreadId,
+    };
 }
 
 pub fn task_id() -> u32 {
